@@ -86,7 +86,8 @@ instance : Inhabited TD := ⟨.nil⟩
 
 structure Def where
   meths : Meths
-  under : TD          -- the underlying type (never a `ref`: `type A B` has the underlying type of B)
+  under : TD          -- the underlying type (never a `ref` or a special type: `type A B` has the underlying type of B,
+                      -- `type D time.Duration` has int64; an ill-formed body counts as a kind without encoding)
   deriving Repr
 
 abbrev Env := List (Nat × Def)
@@ -97,13 +98,19 @@ abbrev Env := List (Nat × Def)
 def under (env : Env) : TD → TD
   | .ref id =>
     match env.lookup id with
-    | some d => (match d.under with | .ref _ => .prim .complex | u => u)
+    | some d => (match d.under with | .ref _ | .special _ => .prim .complex | u => u)
     | none => .prim .complex
   | t => t
 
 def isRef : TD → Bool
   | .ref _ => true
   | _ => false
+
+/-- one unnamed pointer removed (`if typ.Kind() == reflect.Ptr && typ.Name() == "" { typ = typ.Elem() }`; the type an
+embedded `*T` field embeds) -/
+def peel : TD → TD
+  | .ptr e => e
+  | t => t
 
 /-- `t.Kind() == reflect.Ptr` -/
 def isPtrKind : TD → Bool
@@ -302,8 +309,11 @@ def mapKeyF (codec : CodecFn) (env : Env) (k : TD) (seen : Seen) : Option (Optio
         if isStringKind ku then some (.prim .string, seen)
         else if isIntKind ku then stringCodecF codec env k seen
         else some (.unsupported, seen)
+      -- `kindUnsupported`: keys of neither a string nor an integer kind — the map type itself is unsupported in the
+      -- direction without a text method, also when no key is written (fix 0a9d40c)
+      let kindUnsupported := !isStringKind ku && !isIntKind ku
       match kind with
-      | some (kd, seen) => some (some (if !tm then kd else kc), seen)
+      | some (kd, seen) => some (if !tm && kindUnsupported then none else some (if !tm then kd else kc), seen)
       | none => none
     else some (some kc, seen)
   else if isStringKind ku then some (some (.prim .string), seen)
@@ -317,7 +327,7 @@ def mapKeyF (codec : CodecFn) (env : Env) (k : TD) (seen : Seen) : Option (Optio
 def stringifyF (codec : CodecFn) (env : Env) (canAddr : Bool) (ft : TD) (c : Choice) (seen : Seen) :
     Option (Choice × Seen) :=
   -- like encoding/json, only an unnamed pointer type is followed
-  let typ := match ft with | .ptr e => e | t => t
+  let typ := peel ft
   let q := if isScalarKind (under env typ) then Choice.quoted c else c
   let q := if hasMarshaler env typ (canAddr || typ != ft) then c else q
   if typ != ft then
@@ -334,7 +344,7 @@ def fieldsF (codec : CodecFn) (strct : StructFn) (env : Env) (canAddr : Bool) : 
     -- `f.Type.Kind() == reflect.Ptr` for an embedded field: Go only lets a type name T or `*T` (T not a pointer type)
     -- be embedded, so a pointer-kind embedded field has the unnamed type `*T`
     let isP := isPtrKind ft
-    let typ := match ft with | .ptr e => e | t => t
+    let typ := peel ft
     if emb && isStructKind (under env typ) then
       -- what an embedded pointer points to is always addressable
       match strct typ (canAddr || isP) seen with
